@@ -206,6 +206,9 @@ def _format_keyword_list(reserved_words):
             lines.append(current_line)
             current_line = ""
         current_line += "`{}` ".format(word)
+    if current_line:
+        # The last, partially-filled line.
+        lines.append(current_line)
     return "".join([line[:-1] + "\n" for line in lines])
 
 
